@@ -6,7 +6,7 @@
    rfc_frame_ok / rfc_close_code_ok (WsTables.v) are RFC 6455 written independently.  *)
 From Coq Require Import List NArith Bool Lia.
 Import ListNotations.
-Require Import WsModel GenWs WsBasics WsTables WsLimits WsReplies.
+Require Import WsModel GenWs WsBasics WsTables WsLimits WsReplies WsRoundtrip WsRfc WsSeq WsSeq2 WsSeq4 WsSeg2 WsLimits.
 Open Scope N_scope.
 
 (* the real Parse accepts a frame header exactly when RFC 6455 allows it, on the whole header space *)
@@ -89,6 +89,75 @@ Theorem c13_no_delivery cfg fuel st o st' o' evs e :
     evs = before ++ after /\ step cfg st1 o1 = SStop st' o' after (Some e) /\ Forall is_wire_ev after.
 Proof. exact (frame_loop_error_tail cfg fuel st o st' o' evs e). Qed.
 
+(* ---------- c13_sequences: whole frame sequences against RFC 6455 ----------
+   WsRfc.v: raw frames (every header bit FIN/RSV1-3/opcode 0-15/mask, every length encoding incl. non-minimal ones, and
+   headers announcing a 64-bit length with the top bit set), their wire bytes, and rfc_run / rfc_sequence_ok: RFC 6455
+   for a frame sequence written WITHOUT the parser's state - its only memory is "inside a fragmented message of type t
+   with payload acc so far".  It rejects: reserved bits or opcodes (rfc_frame_ok), fragmented or > 125-byte control
+   frames, a continuation without a start, a new data frame inside a fragmented message, invalid UTF-8 in a completed
+   text message or in a close reason, an illegal close code or a one-byte close body, a 64-bit length with the top bit
+   set (and, C15, a message above MessageLengthLimit).  Its result: the verdict, the messages completed before the
+   first offending or closing frame, the pings to be answered before it.
+   Hypotheses: the receiver is idle and open; frames are well formed as BYTES (opcode < 16, 4-byte key iff masked,
+   the length fits its encoding, close payload bytes < 256); less than 2^62 payload bytes in total.
+   With permessage-deflate the decompressor's answers are the oracle o_infl o in both the model and rfc_run. *)
+
+(* one Parse call over the whole wire: accepted by the model iff RFC 6455 allows the sequence; the messages handed
+   to OnMessage / the pings handed to the ping handler before the endpoint itself closed the connection are exactly
+   those the RFC run yields; every such ping is answered at once by one pong frame with the same payload; a valid
+   close frame reaches the close handler with its code and reason *)
+Theorem c13_sequences cfg st o ws st' o' evs e :
+  Forall wf_wframe ws -> pay_total ws < LIM62 -> idle st -> cclosed st = false ->
+  parse_call cfg st (wire_w ws) o = (st', o', evs, e) ->
+  ((e = None /\ cclosed st' = false) <-> rfc_sequence_ok (msg_limit cfg) (enable_compression cfg) (o_infl o) ws = true) /\
+  msgs_bc evs = snd (fst (rfc_run (msg_limit cfg) (enable_compression cfg) (o_infl o) None ws)) /\
+  pings_bc evs = snd (rfc_run (msg_limit cfg) (enable_compression cfg) (o_infl o) None ws) /\
+  pongs_ok cfg evs /\
+  (forall c rs, fst (fst (rfc_run (msg_limit cfg) (enable_compression cfg) (o_infl o) None ws)) = VClosed c rs ->
+                first_close evs = Some (c, rs)) /\
+  (rfc_sequence_ok (msg_limit cfg) (enable_compression cfg) (o_infl o) ws = true -> ~ In EvConnClose evs).
+Proof. exact (seq_accepted cfg st o ws st' o' evs e). Qed.
+
+(* on a rejected sequence nothing of the offending frame's message is delivered: the sequence splits into a prefix
+   the RFC accepts, the first offending (or closing) frame and a rest; deliveries and answered pings are exactly those
+   of the accepted prefix, i.e. the messages completed strictly before the offending frame *)
+Theorem c13_sequences_rejected cfg st o ws st' o' evs e :
+  Forall wf_wframe ws -> pay_total ws < LIM62 -> idle st -> cclosed st = false ->
+  parse_call cfg st (wire_w ws) o = (st', o', evs, e) ->
+  rfc_sequence_ok (msg_limit cfg) (enable_compression cfg) (o_infl o) ws = false ->
+  ~ (e = None /\ cclosed st' = false) /\
+  exists pre bad post, ws = pre ++ bad :: post /\
+    rfc_sequence_ok (msg_limit cfg) (enable_compression cfg) (o_infl o) pre = true /\
+    rfc_sequence_ok (msg_limit cfg) (enable_compression cfg) (o_infl o) (pre ++ [bad]) = false /\
+    msgs_bc evs = snd (fst (rfc_run (msg_limit cfg) (enable_compression cfg) (o_infl o) None pre)) /\
+    pings_bc evs = snd (rfc_run (msg_limit cfg) (enable_compression cfg) (o_infl o) None pre).
+Proof. exact (seq_rejected cfg st o ws st' o' evs e). Qed.
+
+(* the same verdict, deliveries and replies for EVERY cut of the wire into reads (ReadLimit off, any message limit):
+   agrees = the six clauses of c13_sequences, about the reads' combined events, last error and final state *)
+Theorem c13_sequences_segmented cfg st o ws segs :
+  msg_limit cfg < LIM62 -> read_limit cfg = 0 ->
+  Forall wf_wframe ws -> pay_total ws < LIM62 -> len (wire_w ws) < LIM62 -> idle st -> cclosed st = false ->
+  concat segs = wire_w ws ->
+  agrees cfg (rfc_run (msg_limit cfg) (enable_compression cfg) (o_infl o) None ws) (feed cfg st o segs).
+Proof. exact (seq_feed cfg st o ws segs). Qed.
+
+(* non-vacuity: [text FIN=0 "a"] [ping "p"] [continuation FIN=1 "b"] is accepted and delivers "ab" after answering the
+   ping; with a stray continuation in front it is rejected and nothing is delivered *)
+Example c13_sequences_example :
+  let fr fi op p := WFrame (mkr fi false false false op false [] 0 p) in
+  let good := [fr false 1 [97]; fr true 9 [112]; fr true 0 [98]] in
+  let bad := fr true 0 [120] :: good in
+  Forall wf_wframe bad /\
+  rfc_run 0 false [] None good = (VOpen, [(1, [97; 98])], [[112]]) /\
+  rfc_sequence_ok 0 false [] bad = false /\
+  msgs_bc (snd (fst (parse_call (mkcfg false 0 0 false false 32768) init_state (wire_w good) (mko [] [] [])))) = [(1, [97; 98])] /\
+  snd (parse_call (mkcfg false 0 0 false false 32768) init_state (wire_w bad) (mko [] [] [])) = Some EFrag.
+Proof.
+  cbv zeta. split; [|vm_compute; repeat split].
+  repeat constructor; cbn; try lia; try discriminate; auto.
+Qed.
+
 (* non-vacuity: one accepted and one refused row *)
 Example c13_example :
   gen_parse true false false false 1 false false = 0 /\ gen_parse true false false false 0 false false = 1 /\
@@ -108,3 +177,6 @@ Print Assumptions c13_bad_text_refused.
 Print Assumptions c13_bad_close_code_refused.
 Print Assumptions c13_bad_close_reason_refused.
 Print Assumptions c13_no_delivery.
+Print Assumptions c13_sequences.
+Print Assumptions c13_sequences_rejected.
+Print Assumptions c13_sequences_segmented.
